@@ -544,9 +544,10 @@ class Repo:
             return [Located(s.text(), entry.file, a, b, wrap=hdr_text)]
         if loc[0].startswith('macro '):
             # macro NAME arm K :: impl HEADER
-            m = re.match(r'^macro (\w+) arm (\d+)$', loc[0])
-            name, arm_k = m.group(1), int(m.group(2))
-            mr = [it for it in items if it.kind == 'macro_rules' and it.name == name]
+            m = re.match(r'^macro (\w+)(?:@(\S+))? arm (\d+)$', loc[0])
+            name, def_file, arm_k = m.group(1), m.group(2), int(m.group(3))
+            def_items = self._active(self.file(def_file).items) if def_file else items
+            mr = [it for it in def_items if it.kind == 'macro_rules' and it.name == name]
             if len(mr) != 1:
                 raise GenError('%s: macro_rules %s not found' % (entry.key, name))
             arms = parse_macro_rules(mr[0])
@@ -572,8 +573,9 @@ class Repo:
                     parts.append('\n    ' + s.text(with_attrs=False))
             parts.append('\n}')
             templ = ''.join(parts)
-            a = sf.src.count('\n', 0, arm.body[imp.first].start) + 1
-            b = sf.src.count('\n', 0, arm.body[imp.hi - 1].start) + 1
+            dsf = self.file(def_file) if def_file else sf
+            a = dsf.src.count('\n', 0, arm.body[imp.first].start) + 1
+            b = dsf.src.count('\n', 0, arm.body[imp.hi - 1].start) + 1
             # invocations
             res = []
             for call in [it for it in items if it.kind == 'macro_call' and it.name == name]:
@@ -581,7 +583,7 @@ class Repo:
                 for idx, b_, body in expand_macro(arms, args, name):
                     if idx == arm_k:
                         lab = ','.join('%s=%s' % (k, ''.join(t.text for t in v)) for k, v in b_.items())
-                        res.append(Located(templ, entry.file, a, b, bindings=b_, label=lab))
+                        res.append(Located(templ, def_file or entry.file, a, b, bindings=b_, label=lab))
             if not res:
                 raise GenError('%s: no invocation reaches this macro arm' % entry.key)
             return res
